@@ -8,7 +8,9 @@ def jobs_for(ctx):
     three = [["co", "co", "co"], ["bl", "co", "co"], ["co", "try", "try"], ["bl", "bl", "co"], ["co", "bl", "try"], ["bl", "bl", "bl"]]
     four = [["co", "co", "co", "co"], ["bl", "co", "bl", "co"], ["co", "co", "co", "try"]]
     if ctx.quick:
-        return two + three[: 3] + [three[3 + ctx.seed % 3]]
+        # one four-party mix also in quick: a request arriving while the owner-private queue is still non-empty needs
+        # an owner, two queued waiters and a late comer
+        return two + three[: 3] + [three[3 + ctx.seed % 3]] + [four[0]]
     return two + three + four
 
 
